@@ -59,9 +59,21 @@ namespace detail {
     }
   }
 #  define RLBOX_VERIF_READ(addr) ::rlbox::detail::verif_read(addr)
+  // The same for the read of the source inside the integer conversion (kept
+  // apart from the wrapper-level notification above, which precedes it on the
+  // same read)
+  inline void (*verif_conv_read_hook)(const volatile void* addr) = nullptr;
+  inline void verif_conv_read(const volatile void* addr)
+  {
+    if (verif_conv_read_hook != nullptr) {
+      verif_conv_read_hook(addr);
+    }
+  }
+#  define RLBOX_VERIF_CONV_READ(addr) ::rlbox::detail::verif_conv_read(addr)
 #else
 #  define RLBOX_VERIF_INTERLEAVE(site) (void)0
 #  define RLBOX_VERIF_READ(addr) (void)0
+#  define RLBOX_VERIF_CONV_READ(addr) (void)0
 #endif
 
 #ifdef RLBOX_NO_COMPILE_CHECKS
